@@ -47,7 +47,7 @@ SPEC = {
                   "pending_stored_fabricated_orchard_family": 5,
                   "lock_outputs_ok": 40, "unlock_output_calls": 10, "clear_locked_outputs_calls": 5, "rewinds": 4,
                   "diag_sendmax_selection_equals_model": 30, "diag_shielding_selection_equals_model": 15},
-        "thorough": {"histories": 300, "evaluations": 8000, "distinct_nontrivial": 2500, "nontrivial_proposals": 5000,
+        "thorough": {"histories": 150, "evaluations": 8000, "distinct_nontrivial": 2500, "nontrivial_proposals": 5000,
                      "proposals_returned": 4000, "proposals_returned:standard_transfer": 400, "proposals_returned:transfer": 800,
                      "proposals_returned:send_max": 800, "proposals_returned:shielding": 400,
                      "proposals_returned_with_lock_request": 1200, "multi_step_proposals": 100,
